@@ -362,6 +362,25 @@ def run_ops(case, ctx, m, r, plan, real):
             failed = e
         except Violation:
             raise
+        except UnicodeDecodeError as e:
+            # A text field whose bytes are not valid UTF-8 (left by this
+            # workload's own over-long name, cut in the middle of a
+            # character) has no text to return: outside what the read of a
+            # *text* field can be judged on.  Anything else stays a report.
+            undecodable = False
+            if kind == "rvf" and want_read is not None:
+                try:
+                    want_read.rstrip(b"\x00").decode("utf-8")
+                except UnicodeDecodeError:
+                    undecodable = True
+            if not undecodable:
+                raise Violation("unexpected-exception", "%s: %s: %s" %
+                                (kind, type(e).__name__, e),
+                                trace=trace[-4:], buffer=b,
+                                window=case["window"],
+                                protocol=m.protocol_errors[:3])
+            ctx.count("undecodable_text_field_not_judged")
+            continue
         except Exception as e:
             raise Violation("unexpected-exception", "%s: %s: %s" %
                             (kind, type(e).__name__, e), trace=trace[-4:],
